@@ -308,3 +308,79 @@ theorem search_iff (r : Re) (s : Bytes) :
   searchFrom_iff r none s
 
 end Coraza.Regex
+
+/-! ## literal chains and the `^literal$` shape (used by C11's exact-match fast path) -/
+namespace Coraza.Regex
+open Coraza
+
+/-- a literal followed by `tail`, as the parser builds it: c₁·(c₂·(…·tail)) -/
+def litThen (lit : Bytes) (tail : Re) : Re := lit.foldr (fun c r => Re.cat (.cls false [(c, c)]) r) tail
+
+theorem clsHolds_single (c x : UInt8) : clsHolds false [(c, c)] x = true ↔ x = c := by
+  simp only [clsHolds, inRanges, List.any_cons, List.any_nil, Bool.or_false, Bool.and_eq_true, decide_eq_true_eq]
+  constructor
+  · intro h
+    have h' : (c ≤ x ∧ x ≤ c) := by simpa using h
+    exact UInt8.le_antisymm h'.2 h'.1
+  · intro h; subst h; simp
+
+theorem litThen_iff (lit : Bytes) (tail : Re) (p n : Option UInt8) (m : Bytes) :
+    Matches (litThen lit tail) p m n ↔ ∃ m2, m = lit ++ m2 ∧ Matches tail (lst p lit) m2 n := by
+  induction lit generalizing p m with
+  | nil => simp [litThen, lst]
+  | cons c l ih =>
+    simp only [litThen, List.foldr_cons]
+    rw [cat_iff]
+    constructor
+    · rintro ⟨m1, m', h0, h1, h2⟩
+      obtain ⟨x, hx, hc⟩ := (cls_iff _ _ _ _ _).mp h1
+      have hxc : x = c := (clsHolds_single c x).mp hc
+      subst hx; subst hxc
+      obtain ⟨m2, h3, h4⟩ := (ih (lst p [x]) m').mp h2
+      exact ⟨m2, by rw [h0, h3]; rfl, h4⟩
+    · rintro ⟨m2, h0, h1⟩
+      refine ⟨[c], l ++ m2, by rw [h0]; rfl, ?_, ?_⟩
+      · exact Matches.cls false [(c, c)] c p _ ((clsHolds_single c c).mpr rfl)
+      · exact (ih (lst p [c]) (l ++ m2)).mpr ⟨m2, rfl, h1⟩
+
+/-- the last byte of the left context, else what was before it -/
+theorem lst_cases (p : Option UInt8) (pre : Bytes) : (pre = [] ∧ lst p pre = p) ∨ ∃ c ∈ pre, lst p pre = some c := by
+  induction pre generalizing p with
+  | nil => left; exact ⟨rfl, rfl⟩
+  | cons c cs ih =>
+    right
+    rcases ih (some c) with ⟨h1, h2⟩ | ⟨d, hd, h2⟩
+    · exact ⟨c, by simp, by simp [lst, h1, h2]⟩
+    · exact ⟨d, by simp [hd], by simpa [lst] using h2⟩
+
+/-- `(?m)^literal$` -/
+def exactRe (lit : Bytes) : Re := .cat (.asrt .bol) (litThen lit (.cat (.asrt .eol) .eps))
+
+theorem exactRe_iff (lit : Bytes) (p n : Option UInt8) (m : Bytes) :
+    Matches (exactRe lit) p m n ↔ m = lit ∧ Asrt.bol.holds p (hd m n) = true ∧ Asrt.eol.holds (lst p lit) n = true := by
+  unfold exactRe
+  rw [cat_iff]
+  constructor
+  · rintro ⟨m1, m2, h0, h1, h2⟩
+    obtain ⟨hm1, hb⟩ := (asrt_iff _ _ _ _).mp h1
+    subst hm1
+    obtain ⟨m3, h3, h4⟩ := (litThen_iff lit _ _ _ _).mp h2
+    obtain ⟨m4, m5, h5, h6, h7⟩ := (cat_iff _ _ _ _ _).mp h4
+    obtain ⟨hm4, he⟩ := (asrt_iff _ _ _ _).mp h6
+    have hm5 : m5 = [] := (eps_iff _ _ _).mp h7
+    subst hm4; subst hm5
+    simp only [List.append_nil] at h5
+    subst h5
+    simp only [List.append_nil, List.nil_append] at h3 h0
+    subst h3; subst h0
+    refine ⟨rfl, ?_, ?_⟩
+    · simpa [lst] using hb
+    · simpa [lst, hd] using he
+  · rintro ⟨h0, hb, he⟩
+    subst h0
+    refine ⟨[], m, rfl, Matches.asrt _ _ _ (by simpa using hb), ?_⟩
+    apply (litThen_iff m _ _ _ _).mpr
+    refine ⟨[], by simp, ?_⟩
+    exact Matches.cat _ _ _ [] [] _ (Matches.asrt _ _ _ (by simpa [hd, lst] using he)) (Matches.eps _ _)
+
+end Coraza.Regex
